@@ -506,14 +506,6 @@ func run(ctx *core.Ctx) error {
 	if err != nil {
 		return err
 	}
-	if ctx.Thorough() {
-		// the proposed repair of the nil Dict case, in the model
-		if _, err := ctx.MustHold(core.TLCOpts{Dir: "syntax", Module: "MC_PdfSyntax", Cfg: "MC_PdfSyntax_nildictfix.cfg", Workers: 16,
-			XssMB: 512, Constants: "NilDictIsNull=TRUE, token kinds incl. nildict", Timeout: ctx.Dur(5, 25)}); err != nil {
-			return err
-		}
-	}
-
 	// 2. the same value space as a case table
 	cases, _, err := core.GenCases[genCase](ctx, core.TLCOpts{Dir: "syntax", Module: "Gen_PdfSyntax", Cfg: tierCfg(ctx, "Gen_PdfSyntax"),
 		Mode: "evaluate", XssMB: 1024, Timeout: ctx.Dur(5, 25)})
@@ -549,7 +541,7 @@ func run(ctx *core.Ctx) error {
 	ctx.Ev.AddReplayed(nfmt*nOptSets + nrender)
 	ctx.Logf("case table: %d value sequences x %d option sets and %d renderings executed on the real code; %d records", nfmt, nOptSets, nrender, len(col.recs))
 
-	// 3. nil Dict: outside the model's main configuration, on the code all the same
+	// 3. nil Dict (finding fixed by commit bc77a5c): alone, next to other tokens, as a member
 	for i, fc := range nilDictCases() {
 		for bits := 0; bits < nOptSets; bits++ {
 			col.execFmt(fc, fmt.Sprint("nd", i), bits)
